@@ -634,6 +634,30 @@ pub fn run(tier: &str) -> i32 {
             }
         }
     }
+    // a subscriber over the real TCP transport that does not read its socket for a while (the notifications fill the
+    // socket buffers and the connection's write buffer), then reads again: up to the end of its connection it has been
+    // sent every committed change in order - the server may end the connection of a client it cannot write to (a
+    // disconnect ends the subscription), it may not leave holes
+    let mut slow_runs = 0u64;
+    let mut slow_received = 0u64;
+    for (writes, len) in if thorough { vec![(2000usize, 4000usize), (6000, 900), (800, 20_000), (3000, 2500)] } else { vec![(2000, 4000), (5000, 900)] } {
+        let dir = fresh_dir("c03-slow");
+        match crate::transports::slow_tcp_subscriber(&dir, writes, len) {
+            Some(sl) => {
+                slow_runs += 1;
+                slow_received += sl.received.len() as u64;
+                let hole = sl.received.iter().enumerate().position(|(i, n)| *n != i as u64);
+                let ctx = json!({"writes": sl.writes, "value_bytes": len, "received": sl.received.len(), "first_hole_at": hole, "around": hole.map(|h| sl.received[h.saturating_sub(2)..(h + 3).min(sl.received.len())].to_vec()), "connection_ended_by_server": sl.ended_by_server});
+                if hole.is_some() {
+                    v.report(json!({"check": "watch", "problem": "committed-change-not-notified", "detail": "tcp-subscriber-that-fell-behind", "engine": "real-tcp-transport"}), ctx);
+                } else if !sl.ended_by_server && (sl.received.len() as u64) < sl.writes {
+                    v.report(json!({"check": "watch", "problem": "committed-change-not-notified", "detail": "tcp-subscriber-that-fell-behind-lost-the-tail", "engine": "real-tcp-transport"}), ctx);
+                }
+            }
+            None => v.inconclusive("could not bind loopback ports"),
+        }
+    }
+    ev.set("tcp_subscribers_that_fell_behind", json!({"runs": slow_runs, "notifications_received_in_order": slow_received}));
     let st = stats.into_inner().unwrap();
     ev.evaluations = st.runs;
     ev.distinct_nontrivial = st.nontrivial.len() as u64;
